@@ -323,6 +323,78 @@ KNOWN_MIXED = "mixed-operand-dtypes"
 DTYPE_TAGS = {"adj-accepts", "adj-accepts-out", "eval-dtype", "eval-clinear", "adj-clinear"}
 
 
+def stack_tie(ctx, model, cfg, A, res, rng):
+    """VerticalStack / DiagonalStack / DiagonalReplicated configurations of the grid: the model's construction applied
+    to the measured closures of the real operand(s) must reproduce the real stacked operator (same comparison as for
+    a tree node)"""
+    with warnings.catch_warnings():
+        warnings.simplefilter("ignore")
+        if cfg["cls"] == "DiagonalReplicated":
+            ch = [G.build(cfg["op"])]
+            ish, osh = D.norm_shape(ch[0].input_shape), D.norm_shape(ch[0].output_shape)
+            ia = cfg.get("ia", 0)
+            ia = ia if ia >= 0 else len(ish) + 1 + ia
+            oa = cfg.get("oa")
+            oa = ia if oa is None else oa
+            node = {"k": "drep", "rep": int(cfg["k"]), "qi": int(np.prod(ish[ia:], dtype=np.int64)), "qo": int(np.prod(osh[oa:], dtype=np.int64)),
+                    "a": {"k": "leaf", "i": 0}}
+        else:
+            ch = [G.build(c) for c in cfg["ops"]]
+            if cfg["cls"] == "VerticalStack":
+                node = {"k": "vstack", "ops": [{"k": "leaf", "i": i} for i in range(len(ch))], "nin": D.flat_size(D.norm_shape(ch[0].input_shape))}
+            else:
+                node = {"k": "dstack", "ops": [{"k": "leaf", "i": i} for i in range(len(ch))]}
+        rs = [D.check_operator(o, None) for o in ch]
+    if any(r.get("RA") is None or not r["ok"] for r in rs):
+        return
+    wl = [leaf_wire_pq(r, D.is_complex(o.input_dtype), D.is_complex(o.output_dtype)) for o, r in zip(ch, rs)]
+    diff = compare_model(model, wl, T.wire_tree(node), res, D.is_complex(A.input_dtype), D.is_complex(A.output_dtype))
+    ctx.count("stack-model-tie:" + cfg["cls"])
+    if diff is not None:
+        ctx.disagree("adjoint.stack_model", {"cfg": cfg}, {"impl": "dense matrices of the stacked operator"}, diff, oracle=make_oracle(),
+                     note="the model's stack construction applied to the measured operand closures differs from the implementation")
+
+
+def derived_tie(ctx, model, cfg, A, res):
+    """derived forms of the grid: the model's construction applied to the measured closures of the real operands must
+    reproduce the real derived operator (covers the class-specific shortcuts: Diagonal@Diagonal, MatrixOperator.T, ...)"""
+    form = cfg["form"]
+    with warnings.catch_warnings():
+        warnings.simplefilter("ignore")
+        ch = [G.build(cfg["a"])] + ([G.build(cfg["b"])] if "b" in cfg else [])
+        rs = [D.check_operator(o, None) for o in ch]
+    if any(r.get("RA") is None or not r["ok"] for r in rs):
+        return
+    if any(D.is_complex(o.input_dtype) != D.is_complex(A.input_dtype) and form not in ("T", "H", "comp") for o in ch):
+        return  # operands on spaces of different kind: not expressible over one scalar field (known mixed-operand-dtypes)
+    leaf = lambda i: {"k": "leaf", "i": i}
+    c = cfg.get("c")
+    c2 = [float(c[0]), float(c[1])] if isinstance(c, (list, tuple)) else ([float(c), 0.0] if c is not None else None)
+    node = {
+        "T": lambda: {"k": "T", "cplx": bool(D.is_complex(ch[0].input_dtype)), "a": leaf(0)},
+        "H": lambda: {"k": "H", "a": leaf(0)},
+        "conj": lambda: {"k": "conj", "a": leaf(0)},
+        "gram": lambda: {"k": "gram", "a": leaf(0)},
+        "neg": lambda: {"k": "neg", "a": leaf(0)},
+        "smul": lambda: {"k": "smul", "c": c2, "a": leaf(0)},
+        "rsmul": lambda: {"k": "smul", "c": c2, "a": leaf(0)},
+        "sdiv": lambda: {"k": "sdiv", "c": c2, "a": leaf(0)},
+        "add": lambda: {"k": "add", "a": leaf(0), "b": leaf(1)},
+        "sub": lambda: {"k": "sub", "a": leaf(0), "b": leaf(1)},
+        "comp": lambda: {"k": "comp", "a": leaf(0), "b": leaf(1)},
+    }[form]()
+    kinds = {(D.is_complex(o.input_dtype), D.is_complex(o.output_dtype)) for o in ch + [A]}
+    if any(a != b for a, b in kinds):
+        ctx.count("derived-model-tie:skipped real<->complex operand")
+        return  # real->complex operands: only the basis-pair obligations (Re<.,.>) are evaluated
+    wl = [leaf_wire_pq(r, D.is_complex(o.input_dtype), D.is_complex(o.output_dtype)) for o, r in zip(ch, rs)]
+    diff = compare_model(model, wl, T.wire_tree(node), res, D.is_complex(A.input_dtype), D.is_complex(A.output_dtype))
+    ctx.count("derived-model-tie:" + form)
+    if diff is not None:
+        ctx.disagree("adjoint.derived_model", {"cfg": cfg}, {"impl": "dense matrices of the derived operator"}, diff, oracle=make_oracle(),
+                     note=f"form {form}: the model applied to the measured operand closures differs from the implementation")
+
+
 def classify_known(ctx, model, cfg, A, res, view=None):
     """slug of the known finding a failed obligation is an instance of (structural predicate on the configuration
     AND on the kind of failure), or None"""
@@ -365,6 +437,10 @@ def run_config(ctx, model, cfg, rng, views=False, stream="grid"):
     known = None
     if cfg["cls"] in ("XRayTransform2D", "XRayTransform3D") and res.get("RA") is not None:
         known = xray_tie(ctx, model, cfg, A, res)
+    if cfg["cls"] in ("VerticalStack", "DiagonalStack", "DiagonalReplicated") and res.get("RA") is not None and res["ok"]:
+        stack_tie(ctx, model, cfg, A, res, rng)
+    if cfg["cls"] == "Derived" and res.get("RA") is not None and res["ok"]:
+        derived_tie(ctx, model, cfg, A, res)
     if not res["ok"]:
         known = known or classify_known(ctx, model, cfg, A, res)
         ctx.count("obligation-failed:" + "+".join(sorted({t for t, _ in res["fails"]})))
@@ -502,10 +578,14 @@ def correspond(ctx, model):
     unary = [c for c in dfull if c["form"] not in ("add", "sub", "comp")]
     binary = [c for c in dfull if c["form"] in ("add", "sub", "comp")]
     pick_u = [unary[int(i)] for i in rng.permutation(len(unary))[: ctx.n(50, len(unary))]]
-    pick_b = [binary[int(i)] for i in rng.permutation(len(binary))[: ctx.n(50, 900)]]
+    pick_b = [binary[int(i)] for i in rng.permutation(len(binary))[: ctx.n(70, len(binary))]]
     ctx.extra["derived_grid"] = {"unary_total": len(unary), "unary_run": len(pick_u), "binary_total": len(binary), "binary_run": len(pick_b)}
+    short = G.shortcut_grid()
+    ctx.extra["derived_grid"]["shortcut_pairs_run"] = len(short)
     for cfg in pick_u + pick_b:
         run_config(ctx, model, cfg, rng, views=False, stream="derived")
+    for cfg in short if ctx.thorough else [short[int(i)] for i in rng.permutation(len(short))[:60]]:
+        run_config(ctx, model, cfg, rng, views=False, stream="shortcut")
     # 4. leaf models ------------------------------------------------------------------------------------------------
     leaf_models(ctx, model, rng)
     # 5. random derivation trees against the Lean model -------------------------------------------------------------
